@@ -77,6 +77,17 @@ CHECKS['C14'] = dict(
          'and the sub-format test; (c) round_is_identity True implies ctx.round(v) = v for every member. Four genuine defects are open known findings.',
     note='Trusted: vlib/c14_member.py, vlib/trace.py hooks (values snapshotted at observation), vlib/oracle_round.py. Callee bodies are not traced.')
 
+CHECKS['C18'] = dict(
+    category='exploration', design_ref='DESIGN.md §3 C18',
+    technique='generated programs with identity snapshots + Hypothesis rule-based state machine over evaluation histories + harness-owned deterministic thread schedules',
+    text='(a) isolation: generated programs that mutate/return/alias list parameters (nested rows, tuples holding lists): deep value+identity snapshot of the '
+         'arguments before = after, result shares no container with the arguments, result equals the reference evaluator; (b) histories: a Hypothesis '
+         'RuleBasedStateMachine interleaves module definition, evaluation, strategies producing transformed copies, fresh vs default interpreters, same-named '
+         'functions, stochastic-context operations and re-evaluation; every evaluation must equal its history-free model entry; (c) schedules: 2-3 threads '
+         'evaluating under different contexts with the harness handing a baton between them at Python line events (switches inside the MPFR call wrapper '
+         'and the with-block stash/restore), each result must equal its sequential result; thorough adds a free-running stress layer.',
+    note='Trusted: vlib/refeval.py as the history-free model, vlib/c18_sched.py. Only Python-line-granular interleavings are explored; C-extension internals are atomic to the scheduler.')
+
 NOT_YET = {}
 
 
